@@ -307,7 +307,13 @@ fn run_case(c: &Case, rep: &mut Report, seen: &mut BTreeSet<Hash>) {
                             if before.files.iter().any(|f| !after.files.contains(f)) {
                                 purged = true;
                             }
-                            let sig = if purged { format!("purged-during-failed-reorg:{}", fields.join("+")) } else { fields.join("+") };
+                            let sig = if purged {
+                                format!("purged-during-failed-reorg:{}", fields.join("+"))
+                            } else if c.a as u64 >= c.g {
+                                format!("reorg-depth-reaches-genesis-period:{}", fields.join("+"))
+                            } else {
+                                fields.join("+")
+                            };
                             rep.violate(&format!("trace-left/{}/{}", sig, kprefix), format!("rejected block {} ({:?}) changed state: {:?}", w.blocks[ci].label, res, d), json!({"ctx": ctx, "trace": trace, "result": format!("{:?}", res)}));
                             rep.outcome("trace-left");
                         }
@@ -345,7 +351,13 @@ fn run_case(c: &Case, rep: &mut Report, seen: &mut BTreeSet<Hash>) {
         // consistency + liveness after the rejection
         let bad = super::c03::ledger_consistency(w, &n);
         for (clause, detail) in bad {
-            let cls = if purged { "inconsistent-after-reject+purged-during-failed-reorg" } else { "inconsistent-after-reject" };
+            let cls = if purged {
+                "inconsistent-after-reject+purged-during-failed-reorg"
+            } else if c.a as u64 >= c.g {
+                "inconsistent-after-reject+reorg-depth-reaches-genesis-period"
+            } else {
+                "inconsistent-after-reject"
+            };
             rep.violate(&format!("{}/{}/{}", cls, clause, kprefix), detail, json!({"ctx": ctx, "trace": trace}));
         }
         let tip_hash = n.tip().1;
